@@ -336,3 +336,35 @@ def space_mappings(ns, nt):
 
 def full_table_pairs(ns, nt):
     return [(c, t) for c in range(ns) for t in [-1] + list(range(nt))]
+
+
+# ---------------------------------------------------------------- argument representations
+
+CONTAINERS = ["list", "list", "tuple", "set", "frozenset", "dict_keys", "numpy_ints"]
+
+
+def as_container(ids, kind):
+    """the same plate ids in another container a caller may hand over (membership tests work on all of them)"""
+    ids = [int(i) for i in ids]
+    if kind == "tuple":
+        return tuple(ids)
+    if kind == "set":
+        return set(ids)
+    if kind == "frozenset":
+        return frozenset(ids)
+    if kind == "dict_keys":
+        return dict.fromkeys(ids).keys()
+    if kind == "numpy_ints":
+        return [np.int64(i) for i in ids]
+    return list(ids)
+
+
+def call_with_container(f, ids, kind):
+    """f(container); a TypeError for a container other than a list is a refusal of that representation (the annotations say
+    list), answered by calling again with a list - a wrong RESULT for such a container is what the caller checks"""
+    if kind in (None, "list"):
+        return f(list(ids)), "list"
+    try:
+        return f(as_container(ids, kind)), kind
+    except TypeError:
+        return f(list(ids)), "list(refused:%s)" % kind
